@@ -33,148 +33,48 @@ def stores(stmts):
     return out
 
 
+def self_reads(repo, vc, f, seen=None):
+    """attributes of self that f (and the Valve methods it calls) read"""
+    seen = seen if seen is not None else set()
+    out = set()
+    if id(f) in seen:
+        return out
+    seen.add(id(f))
+    for x in ast.walk(f):
+        if isinstance(x, ast.Attribute) and isinstance(x.value, ast.Name) \
+                and x.value.id == "self" and isinstance(x.ctx, ast.Load):
+            m = vc.methods.get(x.attr)
+            if m is not None:
+                out |= self_reads(repo, vc, m, seen)
+            else:
+                out.add(x.attr)
+    return out
+
+
+def simulate(repo, vc, f, fields, now, sym):
+    """abstract execution of a Valve method on an instance with the given
+    (finite-domain) field values; the clock reads `now`"""
+    me = Obj(vc, fields)
+    ev = Evaluator(repo, f._module, vc, funcs={"monotonic": lambda: now})
+    try:
+        ev.call_function(f, [me], cls=vc)
+    except (Unknown, Raised) as ex:
+        raise AnalysisError(f"{sym}: cannot be evaluated on "
+                            f"{fields}: {ex}")
+    return me.fields
+
+
 def run(chk, repo):
-    chk.doc("R27.1", "every path stores coil; the last branch is "
-                     "unconditional")
-    chk.doc("R27.2", "normal branches follow the target; only the good "
-                     "branch refreshes the timer")
-    chk.doc("R27.3", "the error branch applies the configured safe state")
+    chk.doc("R27.1", "the coil is decided on every row of the decision "
+                     "table")
+    chk.doc("R27.2", "normal rows follow the target; only confirmation "
+                     "refreshes the timer")
+    chk.doc("R27.3", "the error rows apply the configured safe state")
     chk.doc("R27.4", "reset")
     chk.doc("R27.5", "switch variables read as bools")
     sym = V + ".update"
     f = repo.func(sym)
     chk.analysed(sym)
-    cfg = CFG(f)
-    coil = [n for n in cfg.nodes if n.kind == "stmt" and isinstance(
-        n.stmt, ast.Assign) and any(is_self_attr(t, "coil")
-                                    for t in n.stmt.targets)]
-    ok = bool(coil) and cfg.must_pass(cfg.entry, lambda n: n in coil,
-                                      targets=[cfg.exit])
-    path = None
-    if not ok:
-        w = cfg.witness_path(cfg.entry, lambda n: n in coil,
-                             targets=[cfg.exit])
-        path = cfg.describe_path(w) if w else None
-    chk.ob("R27.1", sym, "every path through update() stores coil", ok, f,
-           "a path that leaves coil untouched keeps driving the last "
-           "command; after a timeout that path must apply the safe state",
-           path)
-    # ---- the decision table, extracted semantically: for every store in
-    # update() the condition under which it executes is folded over all
-    # switch / coil / safe-state combinations and both outcomes of the
-    # timeout comparison; the shape of the if/elif/else does not matter
-    rd = ReachingDefs(cfg)
-    TIMEOUT = "monotonic() - self.lastGood < self.movingTime"
-    sts = [n for n in cfg.nodes if n.kind == "stmt" and isinstance(
-        n.stmt, ast.Assign) and any(
-            is_self_attr(t, a_) for t in n.stmt.targets
-            for a_ in ("coil", "target", "error", "lastGood"))]
-    ev0 = Evaluator(repo, f._module)
-
-    def runs(node, env, within):
-        """does the store execute under env / timeout outcome `within`"""
-        for e, t in path_facts(node.stmt):
-            e2 = inline_locals(cfg, e, node, rd)
-            if match(TIMEOUT, e2) is not None:
-                v = within
-            elif match("self.movingTime > monotonic() - self.lastGood",
-                       e2) is not None:
-                v = within
-            else:
-                try:
-                    v = bool(ev0.truth(ev0.eval(e2, env)))
-                except (Unknown, Raised) as ex:
-                    raise AnalysisError(f"{sym}: cannot fold the condition "
-                                        f"`{unparse(e2)[:60]}`: {ex}")
-            if v != t:
-                return False
-        return True
-    # further attributes the conditions read (a state flag somebody added)
-    # become boolean dimensions of the table as well
-    extra = set()
-    for n in sts:
-        for e, t in path_facts(n.stmt):
-            e2 = inline_locals(cfg, e, n, rd)
-            if match(TIMEOUT, e2) is not None:
-                continue
-            for x in ast.walk(e2):
-                if isinstance(x, ast.Attribute) and isinstance(
-                        x.value, ast.Name) and x.value.id == "self":
-                    extra.add(x.attr)
-    extra = sorted(extra - {"openSwitch", "closedSwitch", "coil",
-                            "safeState"})
-    need(len(extra) <= 4, f"{sym}: too many state attributes in the "
-                          f"conditions: {extra}")
-    rows = []
-    for o in (False, True):
-        for c in (False, True):
-            for coil_ in (False, True):
-                for safe in (False, True):
-                    for within in (False, True):
-                        for k in range(2 ** len(extra)):
-                            rows.append((o, c, coil_, safe, within, tuple(
-                                bool(k >> i & 1)
-                                for i in range(len(extra)))))
-    problems = {"lastGood": [], "follow": [], "safe": [], "error": [],
-                "once": []}
-    for o, c, coil_, safe, within, ex_ in rows:
-        me = Obj(None, {"openSwitch": o, "closedSwitch": c, "coil": coil_,
-                        "safeState": safe})
-        me.fields.update(dict(zip(extra, ex_)))
-        env = {"self": me}
-        good = (o != c) and ((c or not o) if coil_ == safe
-                             else (o or not c))
-        tag = (f"open={int(o)} closed={int(c)} coil={int(coil_)} "
-               f"safe={int(safe)} {'within' if within else 'after'} "
-               f"movingTime" + "".join(f" {a_}={int(v_)}" for a_, v_
-                                       in zip(extra, ex_)))
-        ex = [n for n in sts if runs(n, env, within)]
-        done = {}
-        for n in ex:
-            for t in n.stmt.targets:
-                for a_ in ("coil", "target", "error", "lastGood"):
-                    if is_self_attr(t, a_):
-                        done.setdefault(a_, []).append(unparse(n.stmt.value))
-        if len(done.get("coil", [])) != 1:
-            problems["once"].append(f"{tag}: coil stored "
-                                    f"{len(done.get('coil', []))} times")
-        if ("lastGood" in done) != good:
-            problems["lastGood"].append(
-                f"{tag}: timer {'refreshed' if 'lastGood' in done else 'not refreshed'}"
-                f", switches {'confirm' if good else 'do not confirm'} the "
-                f"coil")
-        if good or within:
-            if done.get("coil") != ["self.target"] or "error" in done or \
-                    "target" in done:
-                problems["follow"].append(f"{tag}: stores {done}")
-        else:
-            if done.get("coil") != ["self.safeState"] or done.get(
-                    "target") != ["self.safeState"]:
-                problems["safe"].append(f"{tag}: stores {done}")
-            if done.get("error") != ["True"]:
-                problems["error"].append(f"{tag}: error store "
-                                         f"{done.get('error')}")
-    chk.ob("R27.1", sym, "coil is stored exactly once on every row of the "
-           "decision table", not problems["once"], f,
-           "; ".join(problems["once"][:3]) or "one store per cycle")
-    chk.ob("R27.2", sym, "lastGood is refreshed exactly when the switches "
-           "confirm the coil: one switch active, and it is the one of the "
-           "commanded side", not problems["lastGood"], f,
-           "; ".join(problems["lastGood"][:3]) + ": a refresh without "
-           "confirmation restarts the timeout, so a valve that never "
-           "arrives is never timed out" if problems["lastGood"] else
-           "32 rows")
-    chk.ob("R27.2", sym, "confirmed or still within movingTime: the coil "
-           "follows the target and nothing else happens",
-           not problems["follow"], f,
-           "; ".join(problems["follow"][:3]) or "rows with confirmation or "
-           "time left")
-    chk.ob("R27.3", sym, "unconfirmed after movingTime: coil and target go "
-           "to the configured safeState", not problems["safe"], f,
-           "; ".join(problems["safe"][:3]) or "the attribute, not a literal")
-    chk.ob("R27.3", sym, "unconfirmed after movingTime: error is set",
-           not problems["error"], f, "; ".join(problems["error"][:3])
-           or "error = True")
     vc = repo.cls(V)
     ev = Evaluator(repo, vc.module, vc)
     try:
@@ -184,27 +84,134 @@ def run(chk, repo):
         ss = mt = None
     chk.ob("R27.3", V, "safeState and movingTime are configurable class "
            "attributes", isinstance(ss, bool) and isinstance(mt, (int,
-                                                                   float)),
+                                                                   float))
+           and not isinstance(mt, bool) and mt > 0,
            vc.node, f"safeState={ss}, movingTime={mt}")
+    need(isinstance(mt, (int, float)) and mt > 0,
+         f"{V}.movingTime is not a positive number")
+    # ---- the decision table, by abstract execution of update() (the
+    # evaluator of sa/evalx.py interprets the method body, helper methods
+    # included, on an instance whose attributes range over their finite
+    # domains; elapsed time is abstracted to {within, after} movingTime).
+    # The shape of the method does not matter.
+    KNOWN = {"openSwitch", "closedSwitch", "coil", "safeState", "target",
+             "error", "lastGood", "movingTime"}
+    extra = sorted(a for a in self_reads(repo, vc, f) - KNOWN
+                   if a not in vc.attrs or isinstance(
+                       vc.attr_stmts.get(a), ast.Assign) and match(
+                           "TerminalVar($*a)", vc.attr_stmts[a].value)
+                   is not None or isinstance(
+                       vc.attr_stmts.get(a), ast.Assign) and match(
+                           "DeviceVar($*a)", vc.attr_stmts[a].value)
+                   is not None)
+    need(len(extra) <= 3, f"{sym}: too many state attributes are read: "
+                          f"{extra}")
+    T0 = 1000.0
+    problems = {"lastGood": [], "follow": [], "safe": [], "error": []}
+    rows = 0
+    B = (False, True)
+    for o in B:
+        for c in B:
+            for coil_ in B:
+                for safe in B:
+                    for tgt in B:
+                        for err in B:
+                            for within in B:
+                                for k in range(2 ** len(extra)):
+                                    ex_ = tuple(bool(k >> i & 1)
+                                                for i in range(len(extra)))
+                                    rows += 1
+                                    now = T0 + (mt / 2 if within else mt * 2)
+                                    before = {
+                                        "openSwitch": o, "closedSwitch": c,
+                                        "coil": coil_, "safeState": safe,
+                                        "target": tgt, "error": err,
+                                        "lastGood": T0}
+                                    before.update(zip(extra, ex_))
+                                    after = simulate(repo, vc, f,
+                                                     dict(before), now, sym)
+                                    good = (o != c) and (
+                                        (c or not o) if coil_ == safe
+                                        else (o or not c))
+                                    tag = (
+                                        f"open={int(o)} closed={int(c)} "
+                                        f"coil={int(coil_)} safe={int(safe)}"
+                                        f" target={int(tgt)} "
+                                        f"error={int(err)} "
+                                        f"{'within' if within else 'after'}"
+                                        f" movingTime" + "".join(
+                                            f" {a_}={int(v_)}" for a_, v_
+                                            in zip(extra, ex_)))
+                                    res = {a_: after.get(a_) for a_ in (
+                                        "coil", "target", "error",
+                                        "lastGood")}
+                                    fresh = after.get("lastGood") == now
+                                    kept = after.get("lastGood") == T0
+                                    if fresh != good or not (fresh or kept):
+                                        problems["lastGood"].append(
+                                            f"{tag}: timer "
+                                            f"{'refreshed' if fresh else 'not refreshed'}"
+                                            f", switches "
+                                            f"{'confirm' if good else 'do not confirm'}"
+                                            f" the coil")
+                                    if good or within:
+                                        if after.get("coil") is not tgt or \
+                                                after.get("target") is not \
+                                                tgt or after.get("error") \
+                                                is not err:
+                                            problems["follow"].append(
+                                                f"{tag}: ends with {res}")
+                                    else:
+                                        if after.get("coil") is not safe or \
+                                                after.get("target") is not \
+                                                safe:
+                                            problems["safe"].append(
+                                                f"{tag}: ends with {res}")
+                                        if after.get("error") is not True:
+                                            problems["error"].append(
+                                                f"{tag}: error is "
+                                                f"{after.get('error')!r}")
+    chk.floor("R27.1", "decision table rows", rows, 128)
+    chk.ob("R27.2", sym, "lastGood is refreshed exactly when the switches "
+           "confirm the coil: one switch active, and it is the one of the "
+           "commanded side", not problems["lastGood"], f,
+           "; ".join(problems["lastGood"][:3]) + ": a refresh without "
+           "confirmation restarts the timeout, so a valve that never "
+           "arrives is never timed out" if problems["lastGood"] else
+           f"{rows} rows")
+    chk.ob("R27.2", sym, "confirmed or still within movingTime: the coil "
+           "follows the target and nothing else happens",
+           not problems["follow"], f,
+           "; ".join(problems["follow"][:3]) or "rows with confirmation or "
+           "time left: coil = target, target and error untouched")
+    chk.ob("R27.1", sym, "unconfirmed after movingTime: coil and target go "
+           "to the configured safeState", not problems["safe"], f,
+           "; ".join(problems["safe"][:3]) or "the attribute, not a literal: "
+           "both safe-state settings are tabulated")
+    chk.ob("R27.3", sym, "unconfirmed after movingTime: error is set",
+           not problems["error"], f, "; ".join(problems["error"][:3])
+           or "error = True")
     r = repo.func(V + ".reset")
-    sr = stores(r.body)
-    ok = set(sr) == {"error", "lastGood"} and unparse(sr["error"]) == \
-        "False" and unparse(sr["lastGood"]) == "monotonic()"
+    chk.analysed(V + ".reset")
+    bad = []
+    for err in B:
+        for k in range(2 ** len(extra)):
+            ex_ = tuple(bool(k >> i & 1) for i in range(len(extra)))
+            before = {"openSwitch": False, "closedSwitch": True,
+                      "coil": False, "safeState": False, "target": False,
+                      "error": err, "lastGood": T0}
+            before.update(zip(extra, ex_))
+            after = simulate(repo, vc, r, dict(before), T0 + 77.0,
+                             V + ".reset")
+            if after.get("error") is not False or after.get(
+                    "lastGood") != T0 + 77.0:
+                bad.append(f"error={int(err)} before: ends with error="
+                           f"{after.get('error')!r}, lastGood "
+                           f"{'refreshed' if after.get('lastGood') == T0 + 77.0 else 'not refreshed'}")
     chk.ob("R27.4", V + ".reset", "reset clears the error and restarts the "
-           "timer", ok, r, f"stores {sorted(sr)}")
-    rcfg = CFG(r)
-    for attr in ("error", "lastGood"):
-        nodes = [n for n in rcfg.nodes if n.kind == "stmt" and isinstance(
-            n.stmt, ast.Assign) and any(is_self_attr(t, attr)
-                                        for t in n.stmt.targets)]
-        ok = bool(nodes) and rcfg.must_pass(
-            rcfg.entry, lambda n: n in nodes, targets=[rcfg.exit])
-        chk.ob("R27.4", V + ".reset", f"every reset() stores {attr}", ok, r,
-               "unconditionally: the initial reset (no error pending) is "
-               "what starts the timer - skipping it leaves lastGood at "
-               "whatever it was and the first unconfirmed update times out "
-               "at once")
-    vc = repo.cls(V)
+           "timer, whatever the state", not bad, r, "; ".join(bad[:3]) or
+           "unconditionally: the initial reset (no error pending) is what "
+           "starts the timer")
     chk.ob("R27.4", V, "lastGood has no class-level default", "lastGood"
            not in vc.attrs, vc.attr_stmts.get("lastGood", vc.node),
            "a default timestamp hides a missing reset(): the valve would "
